@@ -83,9 +83,74 @@ let union_cmd () =
      done
    with End_of_file -> ())
 
+(* typeof: "<ctx: comma separated i8|i16|i32|i64|bool|str> <s-expression>"  ->  Null | Boolean | Int8.. | Utf8 | none
+   expression syntax: (col i) (int z) (null) (true) (false) (str) (cmp op a b) (dist neg a b) (and a b) (or a b)
+   (not a) (isnull neg a) (arith op a b) (neg a) (case ((c t) ..) els) (in neg a (e ..));  the width annotations
+   of arith / neg are filled in by the extracted [annotate] *)
+let ty_of_name = function
+  | "i8" -> TInt (n_of_int 8) | "i16" -> TInt (n_of_int 16) | "i32" -> TInt (n_of_int 32) | "i64" -> TInt (n_of_int 64)
+  | "bool" -> TBool | "str" -> TStr | "null" -> TNull | s -> failwith ("bad ctx type " ^ s)
+let ty_name = function
+  | None -> "none"
+  | Some TNull -> "Null" | Some TBool -> "Boolean" | Some TStr -> "Utf8"
+  | Some (TInt w) -> "Int" ^ string_of_n w
+let flag s = (s = "1")
+let rec expr_of (x : sexp) : expr =
+  match x with
+  | L [A "col"; A i] -> ECol (O, nat_of_int (int_of_string i))
+  | L [A "int"; A z] -> EConst (VInt (zz_of_string z))
+  | L [A "null"] -> EConst VNull
+  | L [A "true"] -> EConst (VBool true)
+  | L [A "false"] -> EConst (VBool false)
+  | L [A "str"] -> EConst (VStr [n_of_int 97])
+  | L [A "cmp"; A op; a; b] ->
+    let o = (match op with "eq" -> CEq | "ne" -> CNe | "lt" -> CLt | "le" -> CLe | "gt" -> CGt | "ge" -> CGe | _ -> failwith "cmpop") in
+    ECmp (o, expr_of a, expr_of b)
+  | L [A "dist"; A n; a; b] -> EDistinct (flag n, expr_of a, expr_of b)
+  | L [A "and"; a; b] -> EAnd (expr_of a, expr_of b)
+  | L [A "or"; a; b] -> EOr (expr_of a, expr_of b)
+  | L [A "not"; a] -> ENot (expr_of a)
+  | L [A "isnull"; A n; a] -> EIsNull (flag n, expr_of a)
+  | L [A "arith"; A op; a; b] ->
+    let o = (match op with "add" -> Add | "sub" -> Sub | "mul" -> Mul | "div" -> Div | "rem" -> Rem | _ -> failwith "binop") in
+    EArith (o, N0, expr_of a, expr_of b)
+  | L [A "neg"; a] -> ENeg (N0, expr_of a)
+  | L [A "case"; L bs; els] ->
+    ECase (List.map (function L [c; t] -> (expr_of c, expr_of t) | _ -> failwith "case branch") bs, expr_of els)
+  | L [A "in"; A n; a; L es] -> EInList (flag n, expr_of a, List.map expr_of es)
+  | _ -> failwith "bad expression"
+let typeof_cmd () =
+  (try
+     while true do
+       let line = input_line stdin in
+       if String.trim line <> "" then begin
+         let sp = String.index line ' ' in
+         let ctx = String.sub line 0 sp in
+         let rest = String.sub line (sp + 1) (String.length line - sp - 1) in
+         let te = [List.map ty_of_name (split_on ',' ctx)] in
+         let e = expr_of (parse_sexp rest) in
+         print_endline (ty_name (type_of te (annotate te e)))
+       end
+     done
+   with End_of_file -> ())
+(* aggtype: "<fn> <arg type>" -> result type name *)
+let aggtype_cmd () =
+  (try
+     while true do
+       match split_ws (input_line stdin) with
+       | [f; t] ->
+         let fn = (match f with "count_star" -> ACountStar | "count" -> ACount | "sum" -> ASum | "min" -> AMin | "max" -> AMax
+                               | "bool_and" -> ABoolAnd | "bool_or" -> ABoolOr | _ -> failwith "aggfn") in
+         print_endline (ty_name (agg_type fn (ty_of_name t)))
+       | _ -> ()
+     done
+   with End_of_file -> ())
+
 let () =
   match Sys.argv with
   | [| _; "resolve" |] -> resolve_cmd ()
   | [| _; "ties" |] -> ties_cmd ()
   | [| _; "union" |] -> union_cmd ()
-  | _ -> prerr_endline "usage: typing <resolve|ties|union>"; exit 2
+  | [| _; "typeof" |] -> typeof_cmd ()
+  | [| _; "aggtype" |] -> aggtype_cmd ()
+  | _ -> prerr_endline "usage: typing <resolve|ties|union|typeof|aggtype>"; exit 2
